@@ -15,6 +15,7 @@ BUDGET = {
     "C07": B(1500, 15000),
     "C08": B(1500, 15000),
     "C20": B(1500, 15000),
+    "C11": B(1200, 12000),
     "C06": B(700, 10000),
     "C13": B(500, 7000),
     "C17": B(500, 6000, cpu_limit=60),
@@ -109,6 +110,12 @@ RULE = {
            "frame that returns, after which the parent overwrites 4 KiB of stack, polls isFinished() and joins. Oracle: liveness canary (poisoned in the destructor) intact "
            "when invoked + ASan stack-use-after-return; invoked exactly once; isFinished() true only after the callable returned; join() only after that; Runnable run once "
            "then destroyed once; no copy of the callable outlives the Thread. Non-trivial = the new thread's first instruction ran after start() had returned.",
+    "C11": SCHED + "Programs: 2-4 threads, <=28 ops (thorough 44) from {notify(pattern), subscribe(key), unsubscribe (own handle), shrink(pattern), exists(pattern), depth()} on one "
+           "ConcurrentSubjectRouter over keys of depth <=2 with names {a,b} and wildcard levels, 0-3 pre-populated subscriptions; callbacks log ENTER/EXIT and yield inside, they never call "
+           "the router. Oracle: no user code run under the write lock (callable moved in during subscribe, observer destroyed during unsubscribe) executes while a callback is in progress and "
+           "no subscribe/unsubscribe/shrink starts and returns within one callback execution; no invocation after unsubscribe() returned; every notify has an instant in [call,return] with "
+           "definitely-subscribed <= delivered <= possibly-subscribed; exists()/depth() explainable by definitely/possibly present keys; ASan. Non-trivial = a mutating operation was called "
+           "while a callback was between ENTER and EXIT.",
     "C12": SCHED + "Programs: writer-free (2-6 reader threads, incl. nested reads), free mix with few writers, rendezvous shape (a writer holds until all k>=2 readers "
            "are parked, then unlocks; the readers meet at a barrier inside the read section). Oracle: a read request during which no write request was outstanding "
            "never parks; the rendezvous never deadlocks. Non-trivial = >=2 reader threads inside the lock simultaneously (rendezvous: barrier completed).",
@@ -140,6 +147,8 @@ ASSUMPTIONS = {
     "C16": ["model uses the same C++ arithmetic; values bounded (no signed overflow, no division by zero)"],
     "C07": VS + ["non-expiring workers (setExpiryTimeout(-1)) and a single owner thread, as quantified"], "C08": VS + ["non-expiring workers, single owner thread"],
     "C20": VS + ["argument lvalues outlive the thread"],
+    "C11": VS + ["callbacks do not call back into the router (as quantified)", "mute/isValid/invalidation from other threads are not generated: tulz does not lock them and the property does not list them",
+                 "a write operation whose lock is released too early but still waits for the lock first is invisible here (no scheduling point inside unsynchronised code): that is C15's business"],
     "C01": VS, "C02": VS + ["critical sections only yield, they never wait for anything else"], "C03": VS, "C12": VS,
     "C04": ["std::deque is a correct reference model", "element types are bitwise relocatable (as the quantifier requires)"],
     "C09": ["ASan/LSan report every out-of-bounds access / leaked block they observe", "moved-from shells left by pop_* are tolerated, as pinned by RingBufferEfficiencyTest"],
